@@ -240,6 +240,26 @@ def run_unit(p, tier, seed):
                     r.v(PROPERTY, 'bytes_utils', 'xor', 'value', {'n': n, 'a': a, 'b': b}, 'bytewise xor', x)
                 if bu.bytes_xor(x, b) != a or bu.bytes_xor(a, a) != bytes(n):
                     r.v(PROPERTY, 'bytes_utils', 'xor', 'involution', {'n': n, 'a': a, 'b': b}, 'a', 'differs')
+            # operands chosen by the RESULT they must give: leading / trailing zero bytes, a single set bit at either end, all ones
+            if n:
+                wanted = {bytes(n), b'\xff' * n, bytes(n - 1) + b'\x01', b'\x80' + bytes(n - 1), b'\x01' + bytes(n - 1), bytes(n - 1) + b'\x80'}
+                for k in range(1, n):
+                    wanted.add(bytes(k) + g.randbytes(n - k - 1) + b'\x5a')          # k leading zero bytes
+                    wanted.add(b'\xa5' + g.randbytes(n - k - 1) + bytes(k))          # k trailing zero bytes
+                for want in sorted(wanted):
+                    a = g.randbytes(n)
+                    b = bytes(p ^ q for p, q in zip(a, want))
+                    r['evaluations'] += 1
+                    r['transitions'] += 1
+                    x = bu.bytes_xor(a, b)
+                    if x != want:
+                        r.v(PROPERTY, 'bytes_utils', 'xor', 'value-structured-result', {'n': n, 'a': a, 'b': b}, want, x)
+            if n == 1:
+                for pa in range(256):
+                    for pb in range(256):
+                        r['evaluations'] += 1
+                        if bu.bytes_xor(bytes([pa]), bytes([pb])) != bytes([pa ^ pb]):
+                            r.v(PROPERTY, 'bytes_utils', 'xor', 'value-1-byte-exhaustive', {'a': pa, 'b': pb}, pa ^ pb, 'differs')
             # a shorter second operand masks a prefix only: the result keeps len(a) and xor-ing twice restores a
             for lb in sorted(x for x in {0, 1, n // 2, n - 1} if 0 <= x < n):
                 a, b = g.randbytes(n), g.randbytes(lb)
